@@ -284,8 +284,8 @@ fn random_sequence(rng: &mut Rng) -> Sequence {
             14 => Op::InputsNew { s, tc },
             15 | 16 => Op::ToBytes { obj },
             17 | 18 => Op::ToFelts { obj },
-            19 | 20 => Op::FromBytes { obj, kind: rng.below(4) as u8 },
-            21 | 22 => Op::FromFelts { obj, kind: rng.below(3) as u8 },
+            19 | 20 => Op::FromBytes { obj, kind: rng.below(7) as u8 },
+            21 | 22 => Op::FromFelts { obj, kind: rng.below(5) as u8 },
             23 => Op::BoxIt { obj },
             _ => Op::Drop { obj },
         };
@@ -456,10 +456,18 @@ fn execute(seq: &Sequence, scan_for: &[[u8; 32]], real_secrets: &[[u8; 32]], can
                 if let Some(i) = pick(&pool, *obj) {
                     if let Obj::Bytes(b, is_n) = &**pool[i].as_ref().unwrap() {
                         // the caller's working copy is itself a scrubbing buffer with full capacity
-                        let mut w = zeroize::Zeroizing::new(Vec::with_capacity(b.len() + 8));
+                        // (capacity for the longest variant up front: the harness's own buffer must never regrow)
+                        let mut w = zeroize::Zeroizing::new(Vec::with_capacity(2 * b.len() + 64));
                         w.extend_from_slice(b);
                         match kind {
                             1 => w.push(0),
+                            // over-long inputs: a whole further digest, a ragged tail, the record twice
+                            4 => w.extend_from_slice(&[0x21u8; 32]),
+                            5 => w.extend_from_slice(&[7u8; 13]),
+                            6 => {
+                                let l = w.len();
+                                w.extend_from_within(..l);
+                            }
                             2 => {
                                 // non-canonical limb inside the secret region (secret starts at byte 32)
                                 if w.len() >= 64 {
@@ -492,10 +500,16 @@ fn execute(seq: &Sequence, scan_for: &[[u8; 32]], real_secrets: &[[u8; 32]], can
             Op::FromFelts { obj, kind } => {
                 if let Some(i) = pick(&pool, *obj) {
                     if let Obj::Felts(f, is_n) = &**pool[i].as_ref().unwrap() {
-                        let mut v = Vec::with_capacity(f.len() + 2);
+                        let mut v = Vec::with_capacity(2 * f.len() + 8);
                         v.extend_from_slice(f.as_slice());
                         match kind {
                             1 => v.push(F::ONE),
+                            // over-long: four more felts, the record twice
+                            3 => v.extend_from_slice(&[F::ONE; 4]),
+                            4 => {
+                                let l = v.len();
+                                v.extend_from_within(..l);
+                            }
                             2 => {
                                 let l = v.len();
                                 v[l - 1] = F::from_canonical_u64(1 << 40);
